@@ -198,7 +198,13 @@ func (m *monitor) judgeSignatures(n *simNode) {
 					}
 				}
 				if !justified {
-					e.Report("C02", "prevote-against-lock", "node %d precommitted %s in round %d of height %d and then prevoted %s in round %d without having been given a +2/3 prevote quorum for anything else in a round after %d", n.idx, short(lockB), lockR, rec.h, short(rec.block), rec.r, lockR)
+					sig := "prevote-against-lock"
+					if n.walPoisoned && lockInc(recs[:i], rec.h, lockR) != rec.inc {
+						// the lock was taken by an earlier incarnation whose WAL records cannot be
+						// replayed (known finding, see KNOWN_FINDINGS.txt)
+						sig = "prevote-against-lock-after-endheight-marker-loss"
+					}
+					e.Report("C02", sig, "node %d precommitted %s in round %d of height %d and then prevoted %s in round %d without having been given a +2/3 prevote quorum for anything else in a round after %d", n.idx, short(lockB), lockR, rec.h, short(rec.block), rec.r, lockR)
 				}
 			}
 			e.Count("probe.c02_prevote_judged")
@@ -656,4 +662,14 @@ func (m *monitor) auditStores(n *simNode, ctx string) {
 		}
 	}
 	e.Count("probe.store_audit")
+}
+
+// lockInc returns the incarnation that signed the precommit of round r at height h.
+func lockInc(recs []signRec, h int64, r int32) int {
+	for _, o := range recs {
+		if o.h == h && o.r == r && o.typ == int(tmproto.PrecommitType) && o.block != nilBlock {
+			return o.inc
+		}
+	}
+	return -1
 }
